@@ -689,12 +689,502 @@ Section Paths.
              ++ intros f' [<-|Hf'].
                 ** unfold todo_ok. cbn. intros d [].
                 ** eapply E; [exact H0|]. rewrite Estk. right. exact Hf'.
-             ++ rewrite Est. intros X. contradiction.
+             ++ intros X. contradiction.
         * destruct (call g d (s_mgr s) t) as [mc tc] eqn:Ec. inversion Hm; subst.
-          eapply (Hcall d); [reflexivity|rewrite Etd; reflexivity|exact Ec].
-    - inversion Hm; subst. apply Inv2_modtop with (t := t'); auto. apply Inv_refl; assumption.
-      + eapply D; exact H0. + intros f Hf; eapply E; eassumption. + intros Hs; eapply F; eassumption.
-    - inversion Hm; subst. apply Inv2_modtop with (t := t'); auto. apply Inv_refl; assumption.
-      + eapply D; exact H0. + intros f Hf; eapply E; eassumption. + intros Hs; eapply F; eassumption.
+          eapply (Hcall d); [reflexivity|reflexivity|exact Ec].
+    - inversion Hm; subst. apply Inv2_modtop with (t := t'); auto.
+      + eapply D; exact H0.
+      + intros f Hf; eapply E; eassumption.
+      + intros Hs; eapply F; eassumption.
+    - inversion Hm; subst. apply Inv2_modtop with (t := t'); auto.
+      + eapply D; exact H0.
+      + intros f Hf; eapply E; eassumption.
+      + intros Hs; eapply F; eassumption.
+  Qed.
+
+  Lemma Inv2_refl : forall s tid t, Inv2 s -> task_at s tid t -> Inv2 (upd s tid (s_mgr s) t).
+  Proof.
+    intros s tid t Hi2 H0. pose proof Hi2 as [A B C D E F]. apply Inv2_modtop with (t := t); auto.
+    - apply Inv_refl; assumption.
+    - eapply D; exact H0.
+    - intros f Hf; eapply E; eassumption.
+    - intros Hs; eapply F; eassumption.
+  Qed.
+
+  Lemma advance_inv2 : forall fuel s tid t, Inv2 s -> task_at s tid t ->
+    Inv2 (upd s tid (fst (advance fuel g tid (s_mgr s) t)) (snd (advance fuel g tid (s_mgr s) t))).
+  Proof.
+    induction fuel as [|k IH]; intros s tid t Hi H0; cbn [advance].
+    - apply Inv2_refl; assumption.
+    - destruct (terminal t); [apply Inv2_refl; assumption|].
+      destruct (micro g tid (s_mgr s) t) as [[m' t'] y] eqn:Em.
+      pose proof (micro_inv2 s tid t m' t' y Hi H0 Em) as H1.
+      destruct y; [exact H1|].
+      pose proof (IH (upd s tid m' t') tid t' H1 (task_at_upd_same _ _ _ _ _ H0)) as H2.
+      cbn [upd s_mgr] in H2. rewrite upd_upd in H2. exact H2.
+  Qed.
+
+  Variable fuel : nat.
+
+  Lemma task_at_start : forall s tid params tid1 t1,
+    task_at (mkSt (s_mgr s) (s_tasks s ++ [(tid, new_task params)])) tid1 t1 ->
+    task_at s tid1 t1 \/ t1 = new_task params.
+  Proof.
+    intros s tid params tid1 t1 H. unfold task_at in *. cbn [s_tasks] in H. rewrite alookup_app in H.
+    destruct (alookup tid1 (s_tasks s)); [left; exact H|]. cbn in H.
+    destruct (tid =? tid1); [inversion H; right; reflexivity|discriminate].
+  Qed.
+
+  Lemma task_at_start_old : forall s tid params tid1 t1, task_at s tid1 t1 ->
+    task_at (mkSt (s_mgr s) (s_tasks s ++ [(tid, new_task params)])) tid1 t1.
+  Proof. intros s tid params tid1 t1 H. unfold task_at in *. cbn [s_tasks]. rewrite alookup_app, H. reflexivity. Qed.
+
+  Theorem step_inv2 : forall s a, Inv2 s -> Inv2 (step g fuel s a).
+  Proof.
+    intros s a Hi2. pose proof Hi2 as [A B C D E F]. destruct a as [tid params|tid].
+    - pose proof (step_inv g fuel s (TStart tid params) A) as HA. cbn [step] in *.
+      destruct (alookup tid (s_tasks s)) eqn:El; [exact Hi2|].
+      constructor; cbn [s_mgr]; auto.
+      + intros y Hy. destruct (C y Hy) as (tid1 & t1 & f & H1 & Hf & En).
+        exists tid1, t1, f. split; [apply task_at_start_old; exact H1|auto].
+      + intros tid1 t1 H1. destruct (task_at_start _ _ _ _ _ H1) as [H| ->]; [eapply D; eassumption|exact I].
+      + intros tid1 t1 f H1 Hf. destruct (task_at_start _ _ _ _ _ H1) as [H| ->]; [eapply E; eassumption|destruct Hf].
+      + intros tid1 t1 H1 Hs. destruct (task_at_start _ _ _ _ _ H1) as [H| ->]; [eapply F; eassumption|reflexivity].
+    - cbn [step]. destruct (alookup tid (s_tasks s)) as [t|] eqn:El; [|exact Hi2].
+      pose proof (advance_inv2 fuel s tid t Hi2 El) as H.
+      destruct (advance fuel g tid (s_mgr s) t) as [m' t']. exact H.
+  Qed.
+
+  Theorem reachable_inv2 : forall sched, Inv2 (exec g fuel init sched).
+  Proof. intros. unfold exec. apply inv_all_schedules; [apply step_inv2|apply Inv2_init]. Qed.
+
+  (* -- what a "Circular resource dependency" error means ----------------------------------- *)
+
+  (* a new cycle error on x: either x is one of the task's own enclosing `_get` frames — then x really
+     depends on itself — or x is being resolved by another step invocation *)
+  Lemma micro_err : forall s tid t m' t' y x, Inv2 s -> task_at s tid t -> terminal t = false ->
+    micro g tid (s_mgr s) t = (m', t', y) -> t_status t' = TFailed 1 x ->
+    path x x \/
+    (exists tid2 t2 f2, tid2 <> tid /\ task_at s tid2 t2 /\ In f2 (t_stack t2) /\ f_name f2 = x).
+  Proof.
+    intros s tid t m' t' y x Hi2 H0 Hterm Hm Hst. pose proof Hi2 as [A B C D E F].
+    assert (Hcall : forall d mc tc,
+              match t_stack t with fo :: _ => hd_error (f_todo fo) = Some d | [] => True end ->
+              call g d (s_mgr s) t = (mc, tc) -> t_status tc = TFailed 1 x -> t_status t = TRunning ->
+              path x x \/ (exists tid2 t2 f2, tid2 <> tid /\ task_at s tid2 t2 /\ In f2 (t_stack t2) /\ f_name f2 = x)).
+    { intros d mc tc Hhd Hc Hs Hrun. unfold call in Hc. destruct (mem d (m_resolving (s_mgr s))) eqn:Em.
+      - unfold fail_task in Hc. inversion Hc; subst tc. cbn [t_status] in Hs. inversion Hs; subst d.
+        apply mem_true_iff in Em. destruct (C x Em) as (tid1 & t1 & f1 & Hat1 & Hf1 & En).
+        destruct (Z.eq_dec tid1 tid) as [->|Hne]; [|right; exists tid1, t1, f1; auto].
+        left. unfold task_at in Hat1, H0. rewrite H0 in Hat1. inversion Hat1; subst t1.
+        destruct (t_stack t) as [|top rest] eqn:Estk; [destruct Hf1|].
+        assert (Hedge : edge (f_name top) x).
+        { unfold edge. apply (E tid t top); [exact H0|rewrite Estk; left; reflexivity|]. apply hd_error_in. exact Hhd. }
+        destruct Hf1 as [->|Hf1].
+        + rewrite En in Hedge. apply path1. exact Hedge.
+        + rewrite <- En. eapply path_snoc; [|rewrite En; exact Hedge].
+          apply (stack_reach (top :: rest) top rest eq_refl); [rewrite <- Estk; eapply D; exact H0| |exact Hf1].
+          intros f' Hf'. eapply E; [exact H0|rewrite Estk; exact Hf'].
+      - destruct (if n_cache (node_of g d) then alookup d (m_resources (s_mgr s)) else None).
+        + inversion Hc; subst tc. destruct (deliver_shape d z t) as (_ & S2 & _). rewrite S2, Hrun in Hs. discriminate.
+        + destruct (alookup d (m_rcache (s_mgr s))).
+          * inversion Hc; subst tc. destruct (deliver_shape d z t) as (_ & S2 & _). rewrite S2, Hrun in Hs. discriminate.
+          * inversion Hc; subst tc. cbn [t_status] in Hs. rewrite Hrun in Hs. discriminate. }
+    unfold micro in Hm. destruct (t_status t) eqn:Est.
+    - inversion Hm; subst. cbn in Hst. discriminate.
+    - destruct (t_stack t) as [|f rest] eqn:Estk.
+      + destruct (t_params t) as [|p ps].
+        * inversion Hm; subst. cbn in Hst. discriminate.
+        * destruct (call g p (s_mgr s) t) as [mc tc] eqn:Ec. inversion Hm; subst. eapply (Hcall p); eauto.
+      + destruct (f_todo f) as [|d ds] eqn:Etd.
+        * destruct (f_susp f).
+          -- unfold finish_frame in Hm. destruct (n_fails (node_of g (f_name f))).
+             ++ unfold fail_task in Hm. inversion Hm; subst. cbn in Hst. discriminate.
+             ++ inversion Hm; subst. destruct (deliver_shape (f_name f) (m_next (s_mgr s))
+                   (mkTask (t_params t) rest (t_got t) (t_status t))) as (_ & S2 & _).
+                rewrite S2 in Hst. cbn [t_status] in Hst. rewrite Est in Hst. discriminate.
+          -- inversion Hm; subst. cbn in Hst. discriminate.
+        * destruct (call g d (s_mgr s) t) as [mc tc] eqn:Ec. inversion Hm; subst.
+          eapply (Hcall d); eauto.
+    - unfold terminal in Hterm. rewrite Est in Hterm. discriminate.
+    - unfold terminal in Hterm. rewrite Est in Hterm. discriminate.
+  Qed.
+
+  (* -- sequential executions: no two step invocations overlap ------------------------------- *)
+
+  Definition err_ok (s : st) : Prop :=
+    forall tid t x, task_at s tid t -> t_status t = TFailed 1 x -> path x x.
+
+  Definition others_idle (s : st) (tid : Z) : Prop :=
+    forall tid' t', tid' <> tid -> task_at s tid' t' -> t_stack t' = [].
+
+  Lemma others_idle_upd : forall s tid m' t', others_idle s tid -> others_idle (upd s tid m' t') tid.
+  Proof.
+    intros s tid m' t' H tid' t'' Hne H1. unfold task_at, upd in H1. cbn [s_tasks] in H1.
+    rewrite alookup_aupd_other in H1 by exact Hne. eapply H; eassumption.
+  Qed.
+
+  Lemma err_ok_upd : forall s tid t m' t', err_ok s -> task_at s tid t ->
+    (forall x, t_status t' = TFailed 1 x -> path x x) -> err_ok (upd s tid m' t').
+  Proof.
+    intros s tid t m' t' He H0 Hn tid1 t1 x H1 Hs.
+    destruct (task_at_upd _ _ _ _ _ _ _ H0 H1) as [(-> & ->)|(Hne & H1')]; [apply Hn; exact Hs|eapply He; eassumption].
+  Qed.
+
+  Lemma advance_seq : forall fl s tid t, Inv2 s -> err_ok s -> others_idle s tid -> task_at s tid t ->
+    err_ok (upd s tid (fst (advance fl g tid (s_mgr s) t)) (snd (advance fl g tid (s_mgr s) t))).
+  Proof.
+    induction fl as [|k IH]; intros s tid t Hi He Ho H0; cbn [advance].
+    - eapply err_ok_upd; eauto.
+    - destruct (terminal t) eqn:Eterm; [eapply err_ok_upd; eauto|].
+      destruct (micro g tid (s_mgr s) t) as [[m' t'] y] eqn:Em.
+      assert (He' : err_ok (upd s tid m' t')).
+      { eapply err_ok_upd; eauto. intros x Hs.
+        destruct (micro_err s tid t m' t' y x Hi H0 Eterm Em Hs) as [Hp|(tid2 & t2 & f2 & Hne & H2 & Hf2 & _)]; [exact Hp|].
+        rewrite (Ho tid2 t2 Hne H2) in Hf2. destruct Hf2. }
+      destruct y; [exact He'|].
+      pose proof (micro_inv2 s tid t m' t' false Hi H0 Em) as Hi'.
+      pose proof (IH (upd s tid m' t') tid t' Hi' He' (others_idle_upd _ _ _ _ Ho) (task_at_upd_same _ _ _ _ _ H0)) as H2.
+      cbn [upd s_mgr] in H2. rewrite upd_upd in H2. exact H2.
+  Qed.
+
+  (* a scheduler choice respects the sequential discipline when no *other* step invocation is in the
+     middle of its resolution *)
+  Definition seq_ok (s : st) (a : act) : Prop :=
+    match a with
+    | TStart _ _ => True
+    | TRun tid => forall tid' t', tid' <> tid -> task_at s tid' t' -> t_status t' <> TRunning
+    end.
+
+  Fixpoint seq_valid (s : st) (sched : list act) : Prop :=
+    match sched with
+    | [] => True
+    | a :: rest => seq_ok s a /\ seq_valid (step g fuel s a) rest
+    end.
+
+  Theorem no_false_cycle_sequential : forall sched s, Inv2 s -> err_ok s -> seq_valid s sched ->
+    err_ok (exec g fuel s sched).
+  Proof.
+    induction sched as [|a rest IH]; intros s Hi He Hv; [exact He|].
+    destruct Hv as [Hok Hv]. unfold exec. rewrite run_sched_cons. fold (exec g fuel (step g fuel s a) rest).
+    apply IH; [apply step_inv2; exact Hi| |exact Hv].
+    destruct a as [tid params|tid]; cbn [step].
+    - destruct (alookup tid (s_tasks s)) eqn:El; [exact He|].
+      intros tid1 t1 x H1 Hs. destruct (task_at_start _ _ _ _ _ H1) as [H| ->]; [eapply He; eassumption|discriminate].
+    - destruct (alookup tid (s_tasks s)) as [t|] eqn:El; [|exact He].
+      assert (Ho : others_idle s tid).
+      { intros tid' t' Hne H1. eapply (j_idle s Hi); [exact H1|]. apply (Hok tid' t' Hne H1). }
+      pose proof (advance_seq fuel s tid t Hi He Ho El) as H.
+      destruct (advance fuel g tid (s_mgr s) t) as [m' t']. exact H.
   Qed.
 End Paths.
+
+(* ---------------------------------------------------------------------------------------- *)
+(* invariant 3 (every schedule): only resources whose dependency graph is well-founded ever get a
+   value — a genuine cycle can never be satisfied                                             *)
+
+Section Acyclic.
+  Variable g : graph.
+
+  Inductive acyc : Z -> Prop :=
+  | acyc_intro : forall x, (forall d, In d (n_deps (node_of g x)) -> acyc d) -> acyc x.
+
+  Lemma acyc_path_closed : forall x y, path g x y -> acyc x -> acyc y.
+  Proof.
+    intros x y H. induction H as [x y E|x y z E _ IH]; intros Ha.
+    - inversion Ha as [? Hd]; subst. apply Hd. exact E.
+    - apply IH. inversion Ha as [? Hd]; subst. apply Hd. exact E.
+  Qed.
+
+  Lemma acyc_no_cycle : forall x, acyc x -> ~ path g x x.
+  Proof.
+    intros x Ha. induction Ha as [x Hd IH]. intros Hp.
+    inversion Hp as [? ? E|? d ? E Hp']; subst.
+    - apply (IH x E). exact Hp.
+    - apply (IH d E). eapply path_snoc; [exact Hp'|exact E].
+  Qed.
+
+  Definition frame_ok (f : frame) : Prop :=
+    forall d, In d (n_deps (node_of g (f_name f))) -> ~ In d (f_todo f) -> acyc d.
+
+  Record Inv3 (s : st) : Prop := mkInv3 {
+    a_inv2 : Inv2 g s;
+    a_res : forall y o, alookup y (m_resources (s_mgr s)) = Some o -> acyc y;
+    a_rc : forall y o, alookup y (m_rcache (s_mgr s)) = Some o -> acyc y;
+    a_got : forall tid t y v, task_at s tid t -> In (y, v) (t_got t) -> acyc y;
+    a_frames : forall tid t f, task_at s tid t -> In f (t_stack t) -> frame_ok f;
+    a_created : forall e, In e (m_created (s_mgr s)) -> acyc (fst e)
+  }.
+
+  Lemma Inv3_init : Inv3 init.
+  Proof.
+    constructor; cbn; unfold task_at; cbn; try discriminate; try tauto. apply Inv2_init.
+  Qed.
+
+  Lemma Inv3_upd : forall s tid t m' t', Inv3 s -> task_at s tid t -> Inv2 g (upd s tid m' t') ->
+    (forall y o, alookup y (m_resources m') = Some o -> (exists o', alookup y (m_resources (s_mgr s)) = Some o') \/ acyc y) ->
+    (forall y o, alookup y (m_rcache m') = Some o -> (exists o', alookup y (m_rcache (s_mgr s)) = Some o') \/ acyc y) ->
+    (forall y v, In (y, v) (t_got t') -> In (y, v) (t_got t) \/ acyc y) ->
+    (forall f, In f (t_stack t') -> frame_ok f) ->
+    (forall e, In e (m_created m') -> In e (m_created (s_mgr s)) \/ acyc (fst e)) ->
+    Inv3 (upd s tid m' t').
+  Proof.
+    intros s tid t m' t' [A B C D E F] H0 Hi2 HR HC HG HF HK.
+    constructor; cbn [upd s_mgr]; auto.
+    - intros y o Hy. destruct (HR y o Hy) as [(o' & Ho')|Ha]; [eapply B; exact Ho'|exact Ha].
+    - intros y o Hy. destruct (HC y o Hy) as [(o' & Ho')|Ha]; [eapply C; exact Ho'|exact Ha].
+    - intros tid1 t1 y v H1 Hin. destruct (task_at_upd _ _ _ _ _ _ _ H0 H1) as [(-> & ->)|(Hne & H1')].
+      + destruct (HG y v Hin) as [Ho|Ha]; [eapply D; eassumption|exact Ha].
+      + eapply D; eassumption.
+    - intros tid1 t1 f H1 Hf. destruct (task_at_upd _ _ _ _ _ _ _ H0 H1) as [(-> & ->)|(Hne & H1')].
+      + apply HF. exact Hf.
+      + eapply E; eassumption.
+    - intros e He. destruct (HK e He) as [Ho|Ha]; [apply F; exact Ho|exact Ha].
+  Qed.
+
+  Lemma deliver_frames : forall x v t, acyc x ->
+    match t_stack t with fo :: _ => hd_error (f_todo fo) = Some x | [] => True end ->
+    (forall f, In f (t_stack t) -> frame_ok f) ->
+    forall f, In f (t_stack (deliver x v t)) -> frame_ok f.
+  Proof.
+    intros x v t Ha Hhd HF f Hf. unfold deliver in Hf. destruct (t_stack t) as [|fo rest] eqn:E; cbn [t_stack] in Hf.
+    - destruct Hf.
+    - destruct Hf as [<-|Hf]; [|apply HF; right; exact Hf].
+      intros d Hd Hnt. cbn [f_name f_todo] in *.
+      destruct (in_dec Z.eq_dec d (f_todo fo)) as [Hin|Hnin].
+      + destruct (f_todo fo) as [|d0 ds]; [destruct Hin|]. cbn in Hhd, Hnt. inversion Hhd; subst d0.
+        destruct Hin as [<-|Hin]; [exact Ha|contradiction].
+      + apply (HF fo (or_introl eq_refl) d Hd Hnin).
+  Qed.
+
+  Lemma deliver_got : forall x v t y w, In (y, w) (t_got (deliver x v t)) -> In (y, w) (t_got t) \/ y = x.
+  Proof.
+    intros x v t y w H. unfold deliver in H. destruct (t_stack t); cbn [t_got] in H; [|left; exact H].
+    destruct H as [H|H]; [inversion H; right; reflexivity|left; exact H].
+  Qed.
+
+  Lemma micro_inv3 : forall s tid t m' t' y, Inv3 s -> task_at s tid t ->
+    micro g tid (s_mgr s) t = (m', t', y) -> Inv3 (upd s tid m' t').
+  Proof.
+    intros s tid t m' t' y Hi3 H0 Hm. pose proof Hi3 as [A B C D E F].
+    pose proof (micro_inv2 g s tid t m' t' y A H0 Hm) as Hi2'.
+    assert (HFt : forall f, In f (t_stack t) -> frame_ok f) by (intros f Hf; eapply E; eassumption).
+    assert (Hsame : forall mm, m_resources mm = m_resources (s_mgr s) ->
+              forall y0 o, alookup y0 (m_resources mm) = Some o ->
+              (exists o', alookup y0 (m_resources (s_mgr s)) = Some o') \/ acyc y0).
+    { intros mm Hr y0 o Hy. rewrite Hr in Hy. left. exists o. exact Hy. }
+    assert (Hexit : forall mm y0 o, alookup y0 (m_rcache (scope_exit mm)) = Some o -> m_rcache mm = m_rcache (s_mgr s) ->
+              (exists o', alookup y0 (m_rcache (s_mgr s)) = Some o') \/ acyc y0).
+    { intros mm y0 o Hy Hr. apply scope_exit_rcache in Hy. rewrite Hr in Hy. left. exists o. exact Hy. }
+    assert (Hfail : forall k x, Inv2 g (upd s tid (fst (fail_task k x (s_mgr s) t)) (snd (fail_task k x (s_mgr s) t))) ->
+              Inv3 (upd s tid (fst (fail_task k x (s_mgr s) t)) (snd (fail_task k x (s_mgr s) t)))).
+    { intros k x Hi. apply Inv3_upd with (t := t); auto; unfold fail_task; cbn [fst snd t_got t_stack];
+        try (intros y0 o Hy; first [left; exists o; exact Hy | eapply Hexit; [exact Hy|reflexivity]]);
+        try (intros f0 []). }
+    assert (Hdel : forall x v, acyc x -> match t_stack t with fo :: _ => hd_error (f_todo fo) = Some x | [] => True end ->
+              Inv2 g (upd s tid (s_mgr s) (deliver x v t)) -> Inv3 (upd s tid (s_mgr s) (deliver x v t))).
+    { intros x v Ha Hhd Hi. apply Inv3_upd with (t := t); auto;
+        try (intros y0 o Hy; left; exists o; exact Hy).
+      - intros y0 w Hin. destruct (deliver_got _ _ _ _ _ Hin) as [Ho| ->]; [left; exact Ho|right; exact Ha].
+      - apply deliver_frames; assumption. }
+    assert (Hcall : forall x mc tc,
+              match t_stack t with fo :: _ => hd_error (f_todo fo) = Some x | [] => True end ->
+              call g x (s_mgr s) t = (mc, tc) -> Inv2 g (upd s tid mc tc) -> Inv3 (upd s tid mc tc)).
+    { intros x mc tc Hhd Hc Hi. unfold call in Hc. destruct (mem x (m_resolving (s_mgr s))).
+      - pose proof (Hfail 1 x) as Hf. rewrite Hc in Hf. apply Hf. exact Hi.
+      - destruct (if n_cache (node_of g x) then alookup x (m_resources (s_mgr s)) else None) as [v|] eqn:Er.
+        + inversion Hc; subst. apply Hdel; auto. destruct (n_cache (node_of g x)); [eapply B; exact Er|discriminate].
+        + destruct (alookup x (m_rcache (s_mgr s))) as [v|] eqn:Erc.
+          * inversion Hc; subst. apply Hdel; auto. eapply C; exact Erc.
+          * inversion Hc; subst. apply Inv3_upd with (t := t); auto; cbn [m_resources m_rcache m_created t_got t_stack];
+              try (intros y0 o Hy; left; exists o; exact Hy).
+            intros f [<-|Hf]; [|apply HFt; exact Hf]. intros d Hd Hn. cbn in *. contradiction. }
+    unfold micro in Hm. destruct (t_status t) eqn:Est.
+    - inversion Hm; subst. apply Inv3_upd with (t := t); auto; cbn [m_resources m_rcache m_created t_got t_stack];
+        try (intros y0 o Hy; left; exists o; exact Hy).
+    - destruct (t_stack t) as [|f rest] eqn:Estk.
+      + destruct (t_params t) as [|p ps] eqn:Ep.
+        * inversion Hm; subst. apply Inv3_upd with (t := t); auto; cbn [t_got t_stack];
+            try (intros y0 o Hy; first [left; exists o; exact Hy | eapply Hexit; [exact Hy|reflexivity]]);
+            try (intros f0 []).
+        * destruct (call g p (s_mgr s) t) as [mc tc] eqn:Ec. inversion Hm; subst. eapply (Hcall p); eauto.
+      + destruct (f_todo f) as [|d ds] eqn:Etd.
+        * destruct (f_susp f) as [|k] eqn:Es.
+          -- unfold finish_frame in Hm. destruct (n_fails (node_of g (f_name f))).
+             ++ pose proof (Hfail 2 (f_name f)) as Hf.
+                destruct (fail_task 2 (f_name f) (s_mgr s) t) as [mf tf]. inversion Hm; subst. apply Hf. exact Hi2'.
+             ++ inversion Hm; subst.
+                assert (Hax : acyc (f_name f)).
+                { constructor. intros d Hd. apply (HFt f (or_introl eq_refl) d Hd). rewrite Etd. intros []. }
+                apply Inv3_upd with (t := t); auto; cbn [m_resources m_rcache m_created].
+                ** intros y0 o Hy. destruct (Z.eq_dec y0 (f_name f)) as [->|Hne]; [right; exact Hax|].
+                   left. exists o. destruct (n_cache (node_of g (f_name f))); [rewrite alookup_aset_other in Hy by exact Hne|]; exact Hy.
+                ** intros y0 o Hy. destruct (Z.eq_dec y0 (f_name f)) as [->|Hne]; [right; exact Hax|].
+                   left. exists o. rewrite alookup_aset_other in Hy by exact Hne. exact Hy.
+                ** intros y0 w Hin. destruct (deliver_got _ _ _ _ _ Hin) as [Ho| ->]; [left; exact Ho|right; exact Hax].
+                ** apply deliver_frames; cbn [t_stack]; [exact Hax| |intros f' Hf'; apply HFt; right; exact Hf'].
+                   pose proof (j_chain g s A tid t H0) as Hch. rewrite Estk in Hch.
+                   destruct rest as [|fo rest']; [exact I|]. cbn in Hch. destruct Hch as [Hhd _]. exact Hhd.
+                ** intros e He. apply in_app_or in He. destruct He as [He|[<-|[]]]; [left; exact He|right; exact Hax].
+          -- inversion Hm; subst. apply Inv3_upd with (t := t); auto; cbn [t_got t_stack];
+               try (intros y0 o Hy; left; exists o; exact Hy).
+             ++ intros f' [<-|Hf']; [|apply HFt; right; exact Hf'].
+                intros d Hd Hn. cbn [f_name f_todo] in *. apply (HFt f (or_introl eq_refl) d Hd). rewrite Etd. exact Hn.
+        * destruct (call g d (s_mgr s) t) as [mc tc] eqn:Ec. inversion Hm; subst. eapply (Hcall d); eauto.
+    - inversion Hm; subst. apply Inv3_upd with (t := t'); auto;
+        try (intros y0 o Hy; left; exists o; exact Hy).
+    - inversion Hm; subst. apply Inv3_upd with (t := t'); auto;
+        try (intros y0 o Hy; left; exists o; exact Hy).
+  Qed.
+
+  Lemma Inv3_refl : forall s tid t, Inv3 s -> task_at s tid t -> Inv3 (upd s tid (s_mgr s) t).
+  Proof.
+    intros s tid t Hi3 H0. pose proof Hi3 as [A B C D E F]. apply Inv3_upd with (t := t); auto;
+      try (intros y0 o Hy; left; exists o; exact Hy).
+    - apply Inv2_refl; assumption.
+    - intros f Hf. eapply E; eassumption.
+  Qed.
+
+  Lemma advance_inv3 : forall fuel s tid t, Inv3 s -> task_at s tid t ->
+    Inv3 (upd s tid (fst (advance fuel g tid (s_mgr s) t)) (snd (advance fuel g tid (s_mgr s) t))).
+  Proof.
+    induction fuel as [|k IH]; intros s tid t Hi H0; cbn [advance].
+    - apply Inv3_refl; assumption.
+    - destruct (terminal t); [apply Inv3_refl; assumption|].
+      destruct (micro g tid (s_mgr s) t) as [[m' t'] y] eqn:Em.
+      pose proof (micro_inv3 s tid t m' t' y Hi H0 Em) as H1.
+      destruct y; [exact H1|].
+      pose proof (IH (upd s tid m' t') tid t' H1 (task_at_upd_same _ _ _ _ _ H0)) as H2.
+      cbn [upd s_mgr] in H2. rewrite upd_upd in H2. exact H2.
+  Qed.
+
+  Variable fuel : nat.
+
+  Theorem step_inv3 : forall s a, Inv3 s -> Inv3 (step g fuel s a).
+  Proof.
+    intros s a Hi3. pose proof Hi3 as [A B C D E F]. destruct a as [tid params|tid].
+    - pose proof (step_inv2 g fuel s (TStart tid params) A) as HA. cbn [step] in *.
+      destruct (alookup tid (s_tasks s)) eqn:El; [exact Hi3|].
+      constructor; cbn [s_mgr]; auto.
+      + intros tid1 t1 y v H1 Hin. destruct (task_at_start _ _ _ _ _ H1) as [H| ->]; [eapply D; eassumption|destruct Hin].
+      + intros tid1 t1 f H1 Hf. destruct (task_at_start _ _ _ _ _ H1) as [H| ->]; [eapply E; eassumption|destruct Hf].
+    - cbn [step]. destruct (alookup tid (s_tasks s)) as [t|] eqn:El; [|exact Hi3].
+      pose proof (advance_inv3 fuel s tid t Hi3 El) as H.
+      destruct (advance fuel g tid (s_mgr s) t) as [m' t']. exact H.
+  Qed.
+
+  Theorem reachable_inv3 : forall sched, Inv3 (exec g fuel init sched).
+  Proof. intros. unfold exec. apply inv_all_schedules; [apply step_inv3|apply Inv3_init]. Qed.
+
+  (* a resource on a dependency cycle, or one from which a cycle can be reached, is never created and
+     never injected, under any schedule: the step that needs it cannot be given its arguments *)
+  Theorem cyclic_never_satisfied : forall sched x,
+    let s := exec g fuel init sched in
+    ((exists tid t v, task_at s tid t /\ In (x, v) (t_got t)) \/ (exists r, In (x, r) (m_created (s_mgr s)))) ->
+    ~ path g x x /\ (forall y, path g x y -> ~ path g y y).
+  Proof.
+    intros sched x s H. pose proof (reachable_inv3 sched) as Hi. fold s in Hi.
+    assert (Ha : acyc x).
+    { destruct H as [(tid & t & v & H1 & Hin)|(r & Hin)].
+      - eapply (a_got s Hi); eassumption.
+      - apply (a_created s Hi (x, r) Hin). }
+    split; [apply acyc_no_cycle; exact Ha|]. intros y Hp. apply acyc_no_cycle. eapply acyc_path_closed; eassumption.
+  Qed.
+End Acyclic.
+
+(* ---------------------------------------------------------------------------------------- *)
+(* witnesses and examples used by Properties/C22.v                                            *)
+
+Lemma micro_err_reachable : forall g fuel sched tid t m' t' y x,
+  let s := exec g fuel init sched in
+  task_at s tid t -> terminal t = false ->
+  micro g tid (s_mgr s) t = (m', t', y) -> t_status t' = TFailed 1 x ->
+  path g x x \/
+  (exists tid2 t2 f2, tid2 <> tid /\ task_at s tid2 t2 /\ In f2 (t_stack t2) /\ f_name f2 = x).
+Proof.
+  intros g fuel sched tid t m' t' y x s. exact (micro_err g s tid t m' t' y x (reachable_inv2 g fuel sched)).
+Qed.
+
+Definition g_one_async : graph := [(1, mkNode true 1 false [])].
+Definition sched_overlap : list act := [TStart 1 [1]; TStart 2 [1]; TRun 1; TRun 2].
+
+Lemma g_one_async_no_edge : forall y z, ~ edge g_one_async y z.
+Proof.
+  intros y z E. unfold edge, node_of, g_one_async in E. cbn [alookup] in E.
+  destruct (1 =? y); cbn in E; exact E.
+Qed.
+
+Lemma false_cycle_witness :
+  exists g fuel sched tid t x,
+    (forall y, ~ path g y y) /\
+    task_at (exec g fuel init sched) tid t /\ t_status t = TFailed 1 x.
+Proof.
+  exists g_one_async, 50%nat, sched_overlap, 2, (mkTask [1] [] [] (TFailed 1 1)), 1.
+  split; [|split; reflexivity].
+  intros y Hp. inversion Hp as [? ? E|? ? ? E _]; subst; exact (g_one_async_no_edge _ _ E).
+Qed.
+
+Definition g_noncached : graph := [(1, mkNode false 0 false []); (2, mkNode false 1 false [])].
+Definition sched_share : list act := [TStart 1 [1; 2]; TStart 2 [1]; TRun 1; TRun 2].
+
+Lemma noncached_shared_witness :
+  exists g fuel sched x o args t2,
+    let s := exec g fuel init sched in
+    cached g x = false /\ task_at s 2 t2 /\ t_status t2 = TDone /\ In (x, o) (t_got t2) /\
+    In (x, (o, (1, args))) (m_created (s_mgr s)).
+Proof.
+  exists g_noncached, 50%nat, sched_share, 1, 1, [], (mkTask [] [] [(1, 1)] TDone).
+  cbn zeta. split; [reflexivity|]. split; [reflexivity|]. split; [reflexivity|].
+  split; [left; reflexivity|]. vm_compute. left. reflexivity.
+Qed.
+
+(* 1 (cached, async) <- 2 (non-cached) <- 3 (cached);  4 -> 5 -> 4 is a genuine cycle *)
+Definition g_ex : graph :=
+  [(1, mkNode true 1 false []); (2, mkNode false 0 false [1]); (3, mkNode true 0 false [2; 1]);
+   (4, mkNode false 0 false [5]); (5, mkNode true 1 false [4])].
+
+Definition sched_seq : list act :=
+  [TStart 1 [3; 2]; TRun 1; TRun 1; TStart 2 [2; 3]; TRun 2; TStart 3 [1; 4]; TRun 3].
+
+Lemma example_sequential :
+  let s := exec g_ex 60 init sched_seq in
+  alookup 1 (s_tasks s) = Some (mkTask [] [] [(2, 2); (3, 3)] TDone) /\
+  alookup 2 (s_tasks s) = Some (mkTask [] [] [(3, 3); (2, 4)] TDone) /\
+  alookup 3 (s_tasks s) = Some (mkTask [4] [] [(1, 1)] (TFailed 1 4)) /\
+  objs_of 1 (m_created (s_mgr s)) = [1] /\ objs_of 2 (m_created (s_mgr s)) = [2; 4] /\
+  m_resolving (s_mgr s) = [] /\ m_depth (s_mgr s) = 0 /\ m_rcache (s_mgr s) = [].
+Proof. vm_compute. repeat split; reflexivity. Qed.
+
+(* boolean form of the sequential discipline (for closed examples) *)
+Definition seq_okb (s : st) (a : act) : bool :=
+  match a with
+  | TStart _ _ => true
+  | TRun tid => forallb (fun kv => (fst kv =? tid) ||
+                                   match t_status (snd kv) with TRunning => false | _ => true end) (s_tasks s)
+  end.
+
+Lemma seq_okb_sound : forall s a, seq_okb s a = true -> seq_ok s a.
+Proof.
+  intros s [tid params|tid] H; [exact I|]. cbn [seq_okb seq_ok] in *. intros tid' t' Hne Hat.
+  rewrite forallb_forall in H. specialize (H (tid', t') (alookup_Some_in _ _ _ Hat)). cbn in H.
+  destruct (tid' =? tid) eqn:E; [apply Z.eqb_eq in E; contradiction|]. cbn in H.
+  destruct (t_status t'); try discriminate; intros X; discriminate.
+Qed.
+
+Fixpoint seq_validb (g : graph) (fuel : nat) (s : st) (sched : list act) : bool :=
+  match sched with
+  | [] => true
+  | a :: rest => seq_okb s a && seq_validb g fuel (step g fuel s a) rest
+  end.
+
+Lemma seq_validb_sound : forall g fuel sched s, seq_validb g fuel s sched = true -> seq_valid g fuel s sched.
+Proof.
+  induction sched as [|a rest IH]; intros s H; [exact I|]. cbn [seq_validb seq_valid] in *.
+  apply andb_true_iff in H. destruct H as [H1 H2]. split; [apply seq_okb_sound; exact H1|apply IH; exact H2].
+Qed.
+
+Lemma example_sequential_is_valid : seq_valid g_ex 60 init sched_seq /\ path g_ex 4 4.
+Proof.
+  split; [apply seq_validb_sound; vm_compute; reflexivity|].
+  apply pathS with (y := 5); [|apply path1]; unfold edge; cbn; left; reflexivity.
+Qed.
